@@ -220,7 +220,7 @@ def gen_ops(ctx, rng, desc, p, roots_only=False):
         return rng.choice(outs)
 
     ops, ncalls = [], 0
-    shape = rng.choice(["plain", "plain", "dag1", "dag1", "dagN", "dagN", "dag2", "mixed"])
+    shape = rng.choice(["plain", "plain", "dag1", "dag1", "dagN", "dagN", "dag2", "mixed", "dagEval", "dagEval"])
     ctx.count(f"shape:{shape}")
 
     def call(o, kw):
@@ -245,6 +245,18 @@ def gen_ops(ctx, rng, desc, p, roots_only=False):
         hs.append(call(first, roots_kw(first)))
         for _ in range(rng.choice([1, 2, 3])):
             o = first if rng.random() < 0.4 else pick_out()
+            hs.append(call(o, roots_kw(o)))
+        ops.append({"op": "exit"})
+    elif shape == "dagEval":
+        # inside ONE block: request, evaluate an earlier object, request something that shares its nodes (the edges into the later
+        # request must be recorded although their producers are already evaluated)
+        ops.append({"op": "enter"})
+        first = pick_out()
+        hs.append(call(first, roots_kw(first)))
+        for _ in range(rng.choice([1, 2, 3])):
+            if rng.random() < 0.7:
+                ops.append({"op": "eval", "h": rng.choice(hs)})
+            o = pick_out()
             hs.append(call(o, roots_kw(o)))
         ops.append({"op": "exit"})
     elif shape == "dag2":
